@@ -334,6 +334,25 @@ def _instantiate(self, formulas, max_rounds=10):
                         eq = t == (ctor(*accs) if accs else ctor())
                         out.append(eq)
                         work.append(eq)
+    # exhaustiveness (a valid datatype axiom): a term that a recursive spec function is applied to
+    # is one of its constructors applied to its accessors
+    for t in list(_subterms(formulas)):
+        if z3.is_app(t) and t.decl().kind() == z3.Z3_OP_UNINTERPRETED and t.decl().name() in self.uf_defs and self.uf_defs[t.decl().name()].recursive:
+            a0 = t.arg(0)
+            is_param = z3.is_const(a0) and a0.decl().kind() == z3.Z3_OP_UNINTERPRETED and a0.decl().name().startswith("arg.")
+            fixed = any(z3.is_eq(f) and f.arg(0).eq(a0) and z3.is_app(f.arg(1)) and f.arg(1).decl().kind() == z3.Z3_OP_DT_CONSTRUCTOR for f in formulas)
+            if is_param and not fixed and a0.get_id() not in done:
+                done.add(a0.get_id())
+                srt = a0.sort()
+                if srt.kind() == z3.Z3_DATATYPE_SORT and srt.num_constructors() <= 40:
+                    alts = []
+                    for ci in range(srt.num_constructors()):
+                        ctor = srt.constructor(ci)
+                        accs = [srt.accessor(ci, j)(a0) for j in range(ctor.arity())]
+                        alts.append(a0 == (ctor(*accs) if accs else ctor()))
+                    ax = z3.Or(*alts) if len(alts) > 1 else alts[0]
+                    out.append(ax)
+                    work.append(ax)
     for _ in range(max_rounds):
         new = []
         ctor_terms = {}
